@@ -6,7 +6,7 @@
    initialiser against the value written in the source. *)
 From Coq Require Import ZArith NArith Arith List Bool.
 Require Import RasnV.Model.Base RasnV.Model.Scan RasnV.Gen.T04 RasnV.Gen.T05 RasnV.Model.Values RasnV.Spec.ValSpec.
-Require RasnV.Proofs.C07.
+Require RasnV.Proofs.C07 RasnV.Proofs.C07Lines.
 Import ListNotations.
 
 (* an hstring of any length denotes, digit by digit, the 4-bit big-endian expansion of each digit *)
@@ -54,7 +54,7 @@ Theorem C07_cstring :
 Proof. exact Proofs.C07.cstring_spec. Qed.
 
 (* a cstring broken over two lines: the line break and the spacing around it are not part of the value (X.680 12.14.1).
-   [C07_cstring_partial for more than one break: the model handles any number, the theorem is proved for one] *)
+   One break here; any number of breaks in C07_cstring_lines below. *)
 Theorem C07_cstring_two_lines :
   forall a b sp1 nl sp2 rest,
     Proofs.C07.no_nl a -> Proofs.C07.no_nl b -> Proofs.C07.spacing sp1 -> Proofs.C07.spacing sp2 -> is_nl nl = true ->
@@ -62,6 +62,29 @@ Theorem C07_cstring_two_lines :
     N.eqb (hd 0%N rest) QUOTE = false ->
     cstring (QUOTE :: (escape a ++ sp1 ++ nl :: sp2 ++ escape b) ++ QUOTE :: rest) = Some (a ++ b, rest).
 Proof. exact Proofs.C07.cstring_two_lines. Qed.
+
+(* any number of continuation lines, each `spacing, line break, spacing, text`: the literal denotes the concatenation of
+   the texts; a text may be empty (a blank line), inner texts neither begin nor end with spacing (that spacing would be
+   indistinguishable from the spacing around the break, which X.680 12.14.1 removes) *)
+Theorem C07_cstring_lines :
+  forall a segs rest,
+    Proofs.C07.no_nl a -> (segs <> [] -> is_sp (last a 0%N) = false) -> Proofs.C07Lines.good_segs segs ->
+    N.eqb (hd 0%N rest) QUOTE = false ->
+    cstring (QUOTE :: (escape a ++ Proofs.C07Lines.src_rest segs) ++ QUOTE :: rest)
+    = Some (a ++ Proofs.C07Lines.texts segs, rest).
+Proof. exact Proofs.C07Lines.cstring_lines. Qed.
+
+(* ab SP LF TAB c QUOTE QUOTE d CR LF SP SP e between quotation marks -- three breaks, an empty text between CR and LF,
+   a doubled quotation mark -- denotes a b c QUOTE d e *)
+Example C07_cstring_lines_applies :
+  let segs := [Proofs.C07Lines.mkseg [32] 10 [9] [99; 34; 100]; Proofs.C07Lines.mkseg [] 13 [] []; Proofs.C07Lines.mkseg [] 10 [32; 32] [101]]%N in
+  and (Proofs.C07Lines.good_segs segs)
+      (cstring (QUOTE :: ([97%N; 98%N] ++ Proofs.C07Lines.src_rest segs) ++ QUOTE :: [32%N]) = Some ([97; 98; 99; 34; 100; 101]%N, [32%N])).
+Proof.
+  split.
+  - cbn. repeat split; try (repeat constructor); intros; try reflexivity; try discriminate.
+  - vm_compute. reflexivity.
+Qed.
 
 (* OBJECT IDENTIFIER values without value references: every arc resolves to the number X.660 assigns, for the
    number, name(number) and bare-name forms; the bare letter arcs a..z under {itu-t recommendation} are the known
